@@ -616,3 +616,55 @@ func flowsUnchanged(v, src ssa.Value) bool {
 	}
 	return rec(v, 0)
 }
+
+// contentFrom: can bytes of src end up in v?  Follows the operands that carry content — the sliced
+// operand (not the bounds), phi edges, concatenation, conversions, text arguments of calls and local
+// variables — so that path[:n] with n computed from another string does not count as content of it.
+func contentFrom(v, src ssa.Value) bool {
+	seen := map[ssa.Value]bool{}
+	var rec func(v ssa.Value, d int) bool
+	rec = func(v ssa.Value, d int) bool {
+		v = stripValue(v)
+		if v == src {
+			return true
+		}
+		if v == nil || seen[v] || d > 10 {
+			return false
+		}
+		seen[v] = true
+		switch x := v.(type) {
+		case *ssa.Slice:
+			return rec(x.X, d+1)
+		case *ssa.Phi:
+			for _, e := range x.Edges {
+				if rec(e, d+1) {
+					return true
+				}
+			}
+		case *ssa.BinOp:
+			if x.Op == token.ADD {
+				return rec(x.X, d+1) || rec(x.Y, d+1)
+			}
+		case *ssa.Call:
+			for _, a := range x.Call.Args {
+				if isByteSeq(a.Type()) && rec(a, d+1) {
+					return true
+				}
+			}
+		case *ssa.Extract:
+			return rec(x.Tuple, d+1)
+		case *ssa.UnOp:
+			if x.Op == token.MUL {
+				if a, ok := x.X.(*ssa.Alloc); ok {
+					for _, st := range storesInto(a) {
+						if rec(st.Val, d+1) {
+							return true
+						}
+					}
+				}
+			}
+		}
+		return false
+	}
+	return rec(v, 0)
+}
